@@ -247,9 +247,68 @@ def run(unit):
                     exp = ('ok', a & b) if a & b else ('TypeError',)
                     if got != exp:
                         r.violation('expression-level narrowing is not the intersection', {'op': 'expr-cast', 'node': mname, 'a': _w(a), 'b': _w(b)}, f'a {mname} typed {_w(a)} cast to {_w(b)}: expected {exp}, got {got}', size=len(a) + len(b))
+                    try:
+                        cb = node.can_be(I[j])
+                    except Exception as e:  # noqa: BLE001
+                        cb = 'raised ' + type(e).__name__
+                    if cb is not bool(a & b):
+                        r.violation('expression-level can_be is not non-empty intersection', {'op': 'expr-cast', 'node': mname, 'a': _w(a), 'b': _w(b)}, f'a {mname} typed {_w(a)}: can_be({_w(b)}) = {cb!r}', size=len(a) + len(b))
                     if to_model(node.data_type) != a:
                         r.violation('expression-level narrowing changed the node it was applied to', {'op': 'expr-cast', 'node': mname, 'a': _w(a), 'b': _w(b)}, f'{mname} typed {_w(a)} is typed {_w(to_model(node.data_type))} after cast({_w(b)})', size=len(a) + len(b))
                         break
+        if k == 0:
+            # narrowing through the node constructors (parameter types), through a quantifier (the bound variable is
+            # narrowed to the element type of the domain) and through a schema check (a field is narrowed to its
+            # declared type): each must fail exactly when the two type sets share no base type
+            import hpl.types as HT
+
+            params = {'not': ('BOOL', lambda n: A.HplUnaryOperator('not', n)), 'minus': ('NUMBER', lambda n: A.HplUnaryOperator('-', n)), 'field-of': ('MESSAGE', lambda n: A.HplFieldAccess(n, 'f')),
+                      'index-of': ('ARRAY', lambda n: A.HplArrayAccess(n, A.HplLiteral('0', 0))), 'abs': ('NUMBER', lambda n: A.HplFunctionCall('abs', (n,))),
+                      'index': ('NUMBER', lambda n: A.HplArrayAccess(A.HplFieldAccess(A.HplThisMessage(), 'arr'), n))}
+            for pname, (ptype, build) in params.items():
+                for i in range(1, 128):
+                    a = M[i]
+                    if not a <= to_model(makers['field']().data_type):
+                        continue
+                    r.count('evaluations')
+                    try:
+                        node = makers['field']().cast(I[i])
+                        built = build(node)
+                        got = 'ok'
+                    except TypeError:
+                        got = 'TypeError'
+                    except Exception as e:  # noqa: BLE001
+                        got = 'raised ' + type(e).__name__
+                    exp = 'ok' if ptype in a else 'TypeError'
+                    if got != exp:
+                        r.violation('narrowing an operand to a parameter type does not follow the intersection', {'op': 'expr-cast', 'node': pname, 'a': _w(a), 'b': ptype}, f'{pname} around a field typed {_w(a)}: expected {exp}, got {got}', size=len(a))
+            lits = {'NUMBER': ('1', 1), 'BOOL': ('True', True), 'STRING': ('"a"', '"a"')}
+            uses = {'NUMBER': lambda v: A.HplBinaryOperator('>', v, A.HplLiteral('0', 0)), 'BOOL': lambda v: A.HplUnaryOperator('not', v), 'STRING': lambda v: A.HplBinaryOperator('=', v, A.HplLiteral('"b"', '"b"'))}
+            tokens = {'NUMBER': HT.FLOAT64, 'BOOL': HT.BOOLEANS, 'STRING': HT.STRINGS}
+            for e_, (tok, val) in lits.items():
+                for u_, use in uses.items():
+                    r.count('evaluations', 2)
+                    try:
+                        A.HplQuantifier('forall', 'i', A.HplSet((A.HplLiteral(tok, val),)), use(A.HplVarReference('@i')))
+                        got = 'ok'
+                    except TypeError:
+                        got = 'TypeError'
+                    except Exception as e:  # noqa: BLE001
+                        got = 'raised ' + type(e).__name__
+                    exp = 'ok' if e_ == u_ else 'TypeError'
+                    if got != exp:
+                        r.violation('narrowing a bound variable to the element type does not follow the intersection', {'op': 'expr-cast', 'node': 'quantifier', 'a': e_, 'b': u_}, f'forall i in {{{tok}}}: <@i used as {u_}>: expected {exp}, got {got}', size=2)
+                    mt = HT.MessageType('M', {'fld': tokens[e_]}, {})
+                    prop = A.HplProperty(A.HplScope.globally(), A.HplPattern.absence(A.HplSimpleEvent.publish('t', predicate=A.HplPredicateExpression(use(A.HplFieldAccess(A.HplThisMessage(), 'fld'))))))
+                    try:
+                        prop.type_check_references({'t': mt})
+                        got = 'ok'
+                    except TypeError:
+                        got = 'TypeError'
+                    except Exception as e:  # noqa: BLE001
+                        got = 'raised ' + type(e).__name__
+                    if got != exp:
+                        r.violation('narrowing a field to its declared type does not follow the intersection', {'op': 'expr-cast', 'node': 'schema', 'a': e_, 'b': u_}, f'field declared {e_} used as {u_}: expected {exp}, got {got}', size=2)
         r.count('states', r.counters['evaluations'])
     elif kind == 'cold':
         # one fresh interpreter per pair: nothing is materialised before the call under test
@@ -409,7 +468,7 @@ def describe(tier):
         'rule': 'all 128 type sets; every ordered pair (cast, can_be, union); the seven can_be_* and derived members'
         + '; every triple for associativity / union of three; 24 x 24 pairs of named members, complements and unions each cast in a fresh interpreter (nothing materialised beforehand); long families (all non-empty subsets of every 2-4 base types, chains) for union'
         + '; union over 12 container kinds (list, tuple, iterator, generator, set, frozenset, dict, dict views, deque, reversed, map) x 128 sets x 4 family shapes'
-        + '; HplExpression.cast on field / variable / index nodes carrying every type set such a node can carry x all 128 targets'
+        + '; HplExpression.cast and can_be on field / variable / index nodes carrying every type set such a node can carry x all 128 targets; narrowing through 6 constructors, a bound variable and a schema check'
         + '. A state is one tuple of type sets; a transition one call of the real DataType API; non-trivial = every tuple (all are distinct).',
         'bounds': {'type_sets': 128, 'tuple_arity': 3},
         'exhaustive': True,
